@@ -15,7 +15,7 @@ use crate::{
         Chain,
     },
     handler::Handler,
-    parse::utils::is_block_expr,
+    parse::utils::{is_block_expr, is_weaker_than_method_call},
 };
 
 struct ActionExprPos<'a> {
@@ -1006,11 +1006,23 @@ impl<'a> JoinOutput<'a> {
 
                     let initial_expr = replaced_expr.as_ref().unwrap_or(initial_expr);
 
+                    //
+                    // Combinators are applied to the whole initial value: `-a ..abs()` is `(-a).abs()`.
+                    //
+                    let initial_expr_stream = if initial_expr
+                        .inner_exprs()
+                        .map_or(false, |exprs| exprs.iter().any(is_weaker_than_method_call))
+                    {
+                        quote! { (#initial_expr) }
+                    } else {
+                        quote! { #initial_expr }
+                    };
+
                     (
                         prev_def_stream
                             .map(|prev| quote! { #prev #def_stream })
                             .or(def_stream),
-                        quote! { #initial_expr },
+                        initial_expr_stream,
                     )
                 }
             }
